@@ -1,7 +1,7 @@
 (* C10 -- reference-counted and pooled objects are released exactly once, never early.
    Property theorems only: each is closed by [exact] of a lemma proved in Conc/. *)
-From Coq Require Import List Arith Bool.
-From Muscle Require Import Conc.Pool Conc.PoolProofs Conc.RefCnt Conc.RefInv Conc.RefActs Conc.RefProofs.
+From Coq Require Import List Arith Bool NArith.
+From Muscle Require Import Gen.Consts Conc.Pool Conc.PoolProofs Conc.RefCnt Conc.RefInv Conc.RefActs Conc.RefProofs.
 Import ListNotations.
 
 (* ---- the counting protocol: any number of threads, any programs, every reachable state ---- *)
@@ -70,6 +70,13 @@ Theorem C10_slab_created_only_when_exhausted : forall N hlen p p' o sn, 1 <= N -
   pool_obtain N hlen p = (p', o, Some sn) -> p_cur p = 0.
 Proof. exact obtain_creates_only_when_exhausted. Qed.
 Print Assumptions C10_slab_created_only_when_exhausted.
+
+(* INVALID_NODE_INDEX (written [None] in the model) can never be a valid node index, for the constants
+   translated from util/ObjectPool.h *)
+Theorem C10_valid_index_not_invalid : forall N i, (N.of_nat N <= c_pool_max_objects_per_slab)%N -> i < N ->
+  N.of_nat i <> (2 ^ c_pool_node_index_bits - 1)%N.
+Proof. exact valid_index_not_invalid. Qed.
+Print Assumptions C10_valid_index_not_invalid.
 
 (* ---- non-vacuity ---- *)
 
